@@ -1037,7 +1037,53 @@ def _accessor_hands_out_cached_list(repo: Repo, accessor: str, gpm: FuncInfo) ->
     return True
 
 
+CONSTRUCTION_TAGS = ("[node", "every scanned module becomes a node", "ancestors of every scanned module", "[edge end from imported name")
+
+
 def rule_r4(repo: Repo, res: Result) -> None:
+    """The symbolic reading of the construction; where it cannot read the shape (or reads a defect into a shape it only half
+    understands), the construction is tabulated on model inputs (rules/c04_model.py)."""
+    scratch = Result("C04")
+    _rule_r4_symbolic(repo, scratch)
+    und = [u for u in scratch.undecided if u["rule"] == "C04.R4"]
+    bad = [o for o in scratch.obligations if not o.ok]
+    bad_construction = [o for o in bad if any(t in o.construct for t in CONSTRUCTION_TAGS)]
+    verdict = detail = None
+    if und or bad_construction:
+        from . import c04_model
+
+        g = repo.cls(NXGRAPH, "NetworkxGraph")
+        init = g.methods.get("__init__")
+        p = init.param_names if init is not None else []
+        if len(p) >= 3:
+            verdict, detail = c04_model.hierarchy_on_models(repo, g, p[1], p[2], p[3] if len(p) > 3 else None)
+    g_ = repo.cls(NXGRAPH, "NetworkxGraph")
+    init_ = g_.methods.get("__init__")
+    tag = f"{init_.relpath if init_ is not None else NXGRAPH}::NetworkxGraph::nodes and hierarchy edges on model inputs"
+    wh = where(init_, init_.node) if init_ is not None else ""
+    if und and not bad and verdict is not None:
+        # the shape could not be read; its meaning on the model inputs decides
+        res.obligations += scratch.obligations
+        res.floors.update({k: v for k, v in scratch.floors.items() if v[1] >= v[0]})
+        res.undecided += [u for u in scratch.undecided if u["rule"] != "C04.R4"]
+        res.add("C04.R4", tag, verdict, detail + (f" (symbolic reading gave up: {und[0]['detail'][:160]})" if verdict else ""), wh, kind="decision-table")
+        return
+    if bad_construction and len(bad_construction) == len(bad) and verdict is True:
+        # a defect read into a construction whose result is right on every model input: the reading is not trusted
+        res.obligations += [o for o in scratch.obligations if o.ok]
+        res.floors.update({k: v for k, v in scratch.floors.items() if v[1] >= v[0]})
+        res.undecided += scratch.undecided
+        res.undecide("C04.R4", tag, f"the symbolic reading reports `{bad[0].detail[:200]}`, but {detail[:200]}: the two do not agree, no verdict", wh)
+        return
+    res.obligations += scratch.obligations
+    res.floors.update(scratch.floors)
+    res.undecided += scratch.undecided
+    res.observations += scratch.observations
+    if und and not bad and detail is not None:
+        res.undecide("C04.R4", tag, f"the construction could not be tabulated on model inputs either: {detail[:240]}", wh)
+
+
+def _rule_r4_symbolic(repo: Repo, res: Result) -> None:
     T = types_of(repo)
     g = repo.cls(NXGRAPH, "NetworkxGraph")
     init = g.methods.get("__init__")
